@@ -51,6 +51,14 @@ BaseIter(_mesh, _ref_h, _max_laps) {
 
     assert(_ref_h.is_valid());
 
+    if(!_mesh->has_face_bottom_up_incidences()) {
+#ifndef NDEBUG
+        std::cerr << "This iterator needs bottom-up incidences!" << std::endl;
+#endif
+        BaseIter::valid(false);
+        return;
+    }
+
     assert(_mesh->valence(_ref_h) == 4);
 
     const auto& cell_vhs = _mesh->get_cell_vertices(_ref_h);
